@@ -4,7 +4,8 @@ from .. import monitor, mon_alg, w_alg
 LEVEL = 'exploration'
 SHARDS = {'quick': 2, 'thorough': 16}
 BUDGET = {'quick': 60, 'thorough': 600}
-RULE = ('(also: inputs that stem from ONE function -- its own signature and those of partial objects presetting keywords, in both orders -- and default values that compare equal to everything) merge() is driven over every ordered pair of U({a,b},1) (exhaustive; thorough: also every pair of '
+RULE = ('(also: every agree/differ rename pattern over three and four positional-or-keyword parameters -- five to eight distinct names, which the universes cannot supply -- in both orders and three at a time) '
+        '(also: inputs that stem from ONE function -- its own signature and those of partial objects presetting keywords, in both orders -- and default values that compare equal to everything) merge() is driven over every ordered pair of U({a,b},1) (exhaustive; thorough: also every pair of '
         'U({a,b,c},2)) plus VERIF_SEED-seeded random pairs/triples/quadruples from U({a,b,c},3) and U({a,b,c,d},3), '
         'and through Combination objects and discovered multi-call wrappers; the monitor on the real merge compares '
         'acceptance tables built by really calling stub functions. A case is non-trivial when merge returned a '
@@ -26,6 +27,7 @@ def run(ctx):
     ctx.floor('C01.merge_results_n3', 50)
     core.run_slices(ctx, [
         (6, lambda: w_alg.drive_merge(ctx, ctx.tier)),
+        (1, lambda: w_alg.drive_merge_renames(ctx, ctx.tier)),
         # the same merges over parameters that carry defaults and annotations (conciliation of metadata must not
         # change which calls are accepted)
         (2, lambda: w_alg.drive_merge(ctx, 'quick', pool=w_alg.MetaPool(ctx.rng('c01-meta'), defaults=('1', '2', '3', 'ANYTHING', 'None'),
